@@ -328,3 +328,12 @@ add("C28", "classic total fluctuation drops mixed terms", "nifty/cl/library/corr
     "        q = 0.\n        for a in self._a:\n            fl = a.fluctuation_amplitude/self.azm\n            q = q + fl**2\n        return q.sqrt()*self.azm", "R28.3")
 add("C28", "classic slice fluctuation treats own space like the others", "nifty/cl/library/correlated_fields.py", "            if j == space:\n                q = q*fl**2\n", "            if j == space:\n                q = q*(1 + fl**2)\n", "R28.3")
 VARIANTS = V
+
+add("C31", "scaled open grid coord2index without padding extent", "nifty/re/multi_grid/grid_impl.py", "        coord = coord / ((self.shape + 2 * self.shifts) * self.distances)[bc]", "        coord = coord / (self.shape * self.distances)[bc]", "R31.4")
+add("C34", "resume projects the unshifted metric", "nifty/re/evidence_lower_bound.py", "            projector = _Projector(eigenvectors)\n            projected_metric = _ProjectedMetric(solver_metric, projector)\n\n        for batch in batches:",
+    "            projector = _Projector(eigenvectors)\n            projected_metric = _ProjectedMetric(metric, projector)\n\n        for batch in batches:", "R34.4")
+add("C34", "exact trace of the inverse without the data-space shift", "nifty/re/evidence_lower_bound.py", "        inv_eigs = 1.0 / (eigenvalues + float(use_data_space))", "        inv_eigs = 1.0 / eigenvalues", "R34.4")
+add("C20", "data-space branch sees the unconjugated transpose", "nifty/re/evi.py", "    forward_lin_T = _functional_conj(forward_lin_T)\n\n    if signal_space:\n", "\n    if signal_space:\n        forward_lin_T = _functional_conj(forward_lin_T)\n", "R20.1")
+add("C20", "linearised data without the R(position) term", "nifty/re/evi.py", "        data = data - likelihood.forward(position) + forward_lin(position)", "        data = data - likelihood.forward(position)", "R20.1")
+add("C20", "sampling uses the inversion controller", "nifty/cl/library/wiener_filter_curvature.py", "op = SamplingEnabler(M, Sinv, iteration_controller_sampling, Sinv)", "op = SamplingEnabler(M, Sinv, iteration_controller, Sinv)", "R20.3")
+VARIANTS = V
